@@ -1,0 +1,295 @@
+//go:build verif
+
+/*
+ * Atree - Scalable Arrays and Ordered Maps
+ *
+ * Copyright Flow Foundation
+ *
+ * Licensed under the Apache License, Version 2.0 (the "License");
+ * you may not use this file except in compliance with the License.
+ * You may obtain a copy of the License at
+ *
+ *   http://www.apache.org/licenses/LICENSE-2.0
+ *
+ * Unless required by applicable law or agreed to in writing, software
+ * distributed under the License is distributed on an "AS IS" BASIS,
+ * WITHOUT WARRANTIES OR CONDITIONS OF ANY KIND, either express or implied.
+ * See the License for the specific language governing permissions and
+ * limitations under the License.
+ */
+
+package atree
+
+// This file is only compiled with the build tag "verif".  It exposes read-only
+// introspection accessors (and the two global settings) to external verification
+// harnesses.  It adds no call sites to the rest of the package.
+
+// VerifThresholdValues is a copy of the package-level size settings.
+type VerifThresholdValues struct {
+	Target                    uint32
+	Min                       uint32
+	Max                       uint32
+	MaxInlineArrayElementSize uint32
+	MaxInlineMapElementSize   uint32
+	MaxInlineMapKeySize       uint32
+}
+
+// VerifSetThreshold sets the slab size (same as the test-only SetThreshold).
+func VerifSetThreshold(threshold uint32) {
+	setThreshold(threshold)
+}
+
+func VerifThresholds() VerifThresholdValues {
+	return VerifThresholdValues{
+		Target:                    targetThreshold,
+		Min:                       minThreshold,
+		Max:                       maxThreshold,
+		MaxInlineArrayElementSize: maxInlineArrayElementSize,
+		MaxInlineMapElementSize:   maxInlineMapElementSize,
+		MaxInlineMapKeySize:       maxInlineMapKeySize,
+	}
+}
+
+func VerifMaxInlineMapValueSize(keySize uint32) uint32 {
+	return maxInlineMapValueSize(keySize)
+}
+
+func VerifSetMaxCollisionLimitPerDigest(limit uint32) {
+	maxCollisionLimitPerDigest = limit
+}
+
+func VerifMaxCollisionLimitPerDigest() uint32 {
+	return maxCollisionLimitPerDigest
+}
+
+// VerifChildHeader is a copy of a child header held by an index (metadata) slab.
+type VerifChildHeader struct {
+	ID       SlabID
+	Size     uint32
+	Count    uint32 // arrays only
+	FirstKey Digest // maps only
+}
+
+// VerifElement is a neutral copy of one map element.
+type VerifElement struct {
+	Kind       string // "single", "inline-group", "external-group"
+	Size       uint32
+	Key        Storable       // single
+	Value      Storable       // single
+	Group      *VerifElements // inline-group
+	ExternalID SlabID         // external-group
+}
+
+// VerifElements is a neutral copy of a map element list.
+type VerifElements struct {
+	Hkeyed bool // true: hkeyElements, false: singleElements (digests exhausted)
+	Level  uint
+	Size   uint32
+	Hkeys  []Digest
+	Elems  []VerifElement
+}
+
+// VerifSlab is a neutral copy of the fields of one slab.
+type VerifSlab struct {
+	Kind           string // "array-data", "array-meta", "map-data", "map-meta", "storable"
+	ID             SlabID
+	HasExtraData   bool
+	Inlined        bool
+	AnySize        bool
+	CollisionGroup bool
+	Next           SlabID
+	Size           uint32
+	Count          uint32 // array header count
+	FirstKey       Digest // map header first key
+
+	Children  []VerifChildHeader // index slabs
+	CountSums []uint32           // array index slabs
+
+	ArrayElements []Storable     // array data slabs
+	MapElements   *VerifElements // map data slabs
+
+	TypeInfo TypeInfo // extra data
+	MapCount uint64   // map extra data
+	MapSeed  uint64   // map extra data
+
+	Storable Storable // storable slab
+}
+
+func verifElements(e elements) *VerifElements {
+	switch e := e.(type) {
+	case *hkeyElements:
+		out := &VerifElements{
+			Hkeyed: true,
+			Level:  e.level,
+			Size:   e.size,
+			Hkeys:  append([]Digest(nil), e.hkeys...),
+			Elems:  make([]VerifElement, len(e.elems)),
+		}
+		for i, el := range e.elems {
+			out.Elems[i] = verifElement(el)
+		}
+		return out
+
+	case *singleElements:
+		out := &VerifElements{
+			Hkeyed: false,
+			Level:  e.level,
+			Size:   e.size,
+			Elems:  make([]VerifElement, len(e.elems)),
+		}
+		for i, el := range e.elems {
+			out.Elems[i] = verifElement(el)
+		}
+		return out
+	}
+	return nil
+}
+
+func verifElement(e element) VerifElement {
+	switch e := e.(type) {
+	case *singleElement:
+		return VerifElement{Kind: "single", Size: e.size, Key: e.key, Value: e.value}
+	case *inlineCollisionGroup:
+		return VerifElement{Kind: "inline-group", Size: e.Size(), Group: verifElements(e.elements)}
+	case *externalCollisionGroup:
+		return VerifElement{Kind: "external-group", Size: e.size, ExternalID: e.slabID}
+	}
+	return VerifElement{Kind: "unknown"}
+}
+
+// VerifSlabInfo returns a neutral copy of the given slab's fields.
+// It returns nil for slab types it doesn't know.
+func VerifSlabInfo(slab Slab) *VerifSlab {
+	switch s := slab.(type) {
+	case *ArrayDataSlab:
+		out := &VerifSlab{
+			Kind:          "array-data",
+			ID:            s.header.slabID,
+			HasExtraData:  s.extraData != nil,
+			Inlined:       s.inlined,
+			Next:          s.next,
+			Size:          s.header.size,
+			Count:         s.header.count,
+			ArrayElements: append([]Storable(nil), s.elements...),
+		}
+		if s.extraData != nil {
+			out.TypeInfo = s.extraData.TypeInfo
+		}
+		return out
+
+	case *ArrayMetaDataSlab:
+		out := &VerifSlab{
+			Kind:         "array-meta",
+			ID:           s.header.slabID,
+			HasExtraData: s.extraData != nil,
+			Size:         s.header.size,
+			Count:        s.header.count,
+			CountSums:    append([]uint32(nil), s.childrenCountSum...),
+			Children:     make([]VerifChildHeader, len(s.childrenHeaders)),
+		}
+		for i, h := range s.childrenHeaders {
+			out.Children[i] = VerifChildHeader{ID: h.slabID, Size: h.size, Count: h.count}
+		}
+		if s.extraData != nil {
+			out.TypeInfo = s.extraData.TypeInfo
+		}
+		return out
+
+	case *MapDataSlab:
+		out := &VerifSlab{
+			Kind:           "map-data",
+			ID:             s.header.slabID,
+			HasExtraData:   s.extraData != nil,
+			Inlined:        s.inlined,
+			AnySize:        s.anySize,
+			CollisionGroup: s.collisionGroup,
+			Next:           s.next,
+			Size:           s.header.size,
+			FirstKey:       s.header.firstKey,
+			MapElements:    verifElements(s.elements),
+		}
+		if s.extraData != nil {
+			out.TypeInfo = s.extraData.TypeInfo
+			out.MapCount = s.extraData.Count
+			out.MapSeed = s.extraData.Seed
+		}
+		return out
+
+	case *MapMetaDataSlab:
+		out := &VerifSlab{
+			Kind:         "map-meta",
+			ID:           s.header.slabID,
+			HasExtraData: s.extraData != nil,
+			Size:         s.header.size,
+			FirstKey:     s.header.firstKey,
+			Children:     make([]VerifChildHeader, len(s.childrenHeaders)),
+		}
+		for i, h := range s.childrenHeaders {
+			out.Children[i] = VerifChildHeader{ID: h.slabID, Size: h.size, FirstKey: h.firstKey}
+		}
+		if s.extraData != nil {
+			out.TypeInfo = s.extraData.TypeInfo
+			out.MapCount = s.extraData.Count
+			out.MapSeed = s.extraData.Seed
+		}
+		return out
+
+	case *StorableSlab:
+		return &VerifSlab{
+			Kind:     "storable",
+			ID:       s.slabID,
+			Size:     s.ByteSize(),
+			Storable: s.storable,
+		}
+	}
+	return nil
+}
+
+// VerifArrayRoot returns the root slab currently referenced by the array handle.
+func VerifArrayRoot(a *Array) Slab {
+	return a.root
+}
+
+// VerifMapRoot returns the root slab currently referenced by the map handle.
+func VerifMapRoot(m *OrderedMap) Slab {
+	return m.root
+}
+
+// VerifArrayTrackedChildren returns a copy of the index the array handle keeps for its mutable children.
+func VerifArrayTrackedChildren(a *Array) map[ValueID]uint64 {
+	out := make(map[ValueID]uint64, len(a.mutableElementIndex))
+	for k, v := range a.mutableElementIndex {
+		out[k] = v
+	}
+	return out
+}
+
+// VerifArrayHasParentUpdater reports whether the array handle currently has a parent callback.
+func VerifArrayHasParentUpdater(a *Array) bool {
+	return a.parentUpdater != nil
+}
+
+// VerifMapHasParentUpdater reports whether the map handle currently has a parent callback.
+func VerifMapHasParentUpdater(m *OrderedMap) bool {
+	return m.parentUpdater != nil
+}
+
+// VerifLayerEntry describes one entry of the write set or the read cache.
+type VerifLayerEntry struct {
+	ID      SlabID
+	Present bool // false: nil entry (pending deletion / known absent)
+	Slab    Slab
+}
+
+// VerifStorageLayers returns copies of the write set and the read cache of the storage.
+func VerifStorageLayers(s *PersistentSlabStorage) (deltas []VerifLayerEntry, cache []VerifLayerEntry) {
+	deltas = make([]VerifLayerEntry, 0, len(s.deltas))
+	for id, slab := range s.deltas {
+		deltas = append(deltas, VerifLayerEntry{ID: id, Present: slab != nil, Slab: slab})
+	}
+	cache = make([]VerifLayerEntry, 0, len(s.cache))
+	for id, slab := range s.cache {
+		cache = append(cache, VerifLayerEntry{ID: id, Present: slab != nil, Slab: slab})
+	}
+	return deltas, cache
+}
